@@ -175,9 +175,18 @@ func probesFor(keys [][]byte) [][]byte {
 		out = append(out, append([]byte{}, b...))
 	}
 	for _, k := range keys {
+		if len(k) == 0 {
+			// an empty key is accepted by iavl itself (the SDK forbids it); used by a few dedicated specs
+			seen[""] = true
+			out = append(out, []byte{})
+			continue
+		}
 		add(k)
 	}
 	for _, k := range keys {
+		if len(k) == 0 {
+			continue
+		}
 		add(append(append([]byte{}, k...), 0))   // immediate successor
 		add(append(append([]byte{}, k...), 'z')) // extension
 		if len(k) > 1 {
